@@ -43,8 +43,16 @@ pub fn ignore_filter(entry: &DirEntry, ignore: &Option<Gitignore>) -> bool {
     match ignore {
         None => true,
         Some(gi) => {
+            // The root of the walk is not subject to its own ignore
+            // file (a `*` pattern would otherwise exclude everything,
+            // the destination directory included).
+            if entry.depth() == 0 {
+                return true;
+            }
             let path = entry.path();
-            let m = gi.matched(path, path.is_dir());
+            // Like git, do not treat a symlink to a directory as a
+            // directory when matching `dir/` patterns.
+            let m = gi.matched(path, entry.file_type().is_dir());
             !m.is_ignore()
         }
     }
